@@ -176,6 +176,7 @@ func checkC08(c *Check) {
 	c.Ob("R1", "MsgCreateBid.ValidateBasic rejects provider == tenant", vb.Pos(), okSelf, "a tenant can bid on its own order")
 	c.Ob("R1", "MsgCreateBid.ValidateBasic rejects a zero price", vb.Pos(), okZero, "")
 	c.Ob("R1", "MsgCreateBid.ValidateBasic validates the order id", vb.Pos(), okOrder, "")
+	c.orderMaximumShape("R1")
 
 	// ---- R2 what is matched
 	for _, call := range callsIn(h, false) {
@@ -870,4 +871,115 @@ func sliceParts(v ssa.Value) ([]string, bool) {
 // variable, or - through a new helper's parameter - as the keeper call that fetched it).
 func isProvOwner(s string) bool {
 	return s == "fv:prov.Owner" || s == "p:prov.Owner" || (strings.HasSuffix(s, ")#0.Owner") && strings.Contains(s, "IKeeper.Get(p:ms.provider, ") && strings.Contains(s, "p:msg.Owner"))
+}
+
+// orderMaximumShape: the ceiling a bid is held against is GroupSpec.Price(), the sum over the group's resource entries
+// of unit price x count. Shape conditions: a multiplication by an entry's Count has that entry's unit price as its
+// other operand (never the running total), and the running total grows by addition only. A product whose receiver
+// derives from the loop-carried total is a violation; anything else unrecognised is not decided.
+func (c *Check) orderMaximumShape(rule string) {
+	l := c.L
+	pf := l.Func("x/deployment/types", "GroupSpec", "Price")
+	fp := l.Func("x/deployment/types", "Resource", "FullPrice")
+	c.Analysed(fnName(pf))
+	fns := fnAndClosuresDeep(pf)
+	if fp != nil {
+		c.Analysed(fnName(fp))
+		fns = append(fns, fp)
+	}
+	carried := func(v ssa.Value) bool {
+		seen := map[ssa.Value]bool{}
+		var walk func(v ssa.Value, d int) bool
+		walk = func(v ssa.Value, d int) bool {
+			if v == nil || seen[v] || d > 12 {
+				return false
+			}
+			seen[v] = true
+			switch x := v.(type) {
+			case *ssa.Phi:
+				if loopHeaderOf(x.Block()) == x.Block() || len(x.Block().Preds) > 1 && loopHeaderOf(x.Block()) != nil {
+					return true
+				}
+				for _, e := range x.Edges {
+					if walk(e, d+1) {
+						return true
+					}
+				}
+			case *ssa.Call:
+				if len(x.Call.Args) > 0 && !x.Call.IsInvoke() {
+					return walk(x.Call.Args[0], d+1)
+				}
+			case *ssa.Extract:
+				return walk(x.Tuple, d+1)
+			case *ssa.UnOp:
+				return walk(x.X, d+1)
+			case *ssa.Field:
+				return walk(x.X, d+1)
+			case *ssa.FieldAddr:
+				return walk(x.X, d+1)
+			}
+			return false
+		}
+		return walk(v, 0)
+	}
+	// a loop that walks the entries indexes the very slice whose length bounds it (ranging over a sub-slice while
+	// indexing the whole one counts some entries twice and drops others)
+	for _, g := range fnAndClosuresDeep(pf) {
+		for _, b := range g.Blocks {
+			ifi, isIf := b.Instrs[len(b.Instrs)-1].(*ssa.If)
+			if !isIf {
+				continue
+			}
+			bo, isBO := ifi.Cond.(*ssa.BinOp)
+			if !isBO || bo.Op != token.LSS {
+				continue
+			}
+			ln, _ := callOf(bo.Y)
+			if ln == nil || calleeFull(ln) != "builtin.len" {
+				continue
+			}
+			bound := Sym(ln.Call.Args[0])
+			if sl, isSl := ln.Call.Args[0].(*ssa.Slice); isSl && sl.High == nil && sl.Max == nil {
+				if k, isK := constInt(sl.Low); sl.Low == nil || (isK && k == 0) {
+					bound = Sym(sl.X) // xs[:] is xs
+				} else {
+					bound = Sym(sl.X) + "[" + Sym(sl.Low) + ":]"
+				}
+			}
+			eachInstr(g, func(i ssa.Instruction) {
+				ia, isIA := i.(*ssa.IndexAddr)
+				if !isIA || ia.Index != bo.X || !loopBlocks(b)[ia.Block()] {
+					return
+				}
+				c.Ob(rule, "order maximum: the loop over resource entries indexes the slice it is bounded by", ia.Pos(), Sym(ia.X) == bound, "the loop runs over "+short(bound)+" but reads "+short(Sym(ia.X))+" at the same index: an entry is counted twice and another left out")
+			})
+		}
+	}
+	nmul, good := 0, 0
+	for _, g := range fns {
+		for _, call := range callsInOwn(g) {
+			m := calleeMethod(call)
+			if (m != "MulRaw" && m != "Mul" && m != "MulInt64") || !strings.Contains(calleeFull(call), "cosmos-sdk/types.Int") {
+				continue
+			}
+			a := call.Common().Args
+			if len(a) != 2 || !strings.Contains(Sym(a[1]), ".Count") {
+				continue
+			}
+			nmul++
+			if carried(a[0]) {
+				c.Ob(rule, "order maximum: the count of a resource entry multiplies that entry's unit price", call.Pos(), false, "the product's other operand is the running total ("+short(Sym(a[0]))+"): entries after the first inflate the maximum a bid is held against")
+				continue
+			}
+			if strings.HasSuffix(Sym(a[0]), ".Price.Amount") {
+				good++
+			}
+		}
+	}
+	switch {
+	case nmul == 0 || good == 0:
+		c.Info(rule, "order maximum: form of unit price x count not recognised, not decided", pf.Pos(), "")
+	default:
+		c.Ob(rule, "order maximum: the count of a resource entry multiplies that entry's unit price", pf.Pos(), true, "")
+	}
 }
